@@ -9,162 +9,6 @@ import wit
 from report import Finding
 
 
-def norm_step(e):
-    """(sign, normalised text of the magnitude) of a perturbation step expression"""
-    # strip .eval()
-    while e[0] == "mcall" and e[2] == "eval":
-        e = e[1]
-    sign = 1
-    if e[0] == "neg":
-        sign, e = -1, e[1]
-    elif e[0] == "op" and e[1] == "*" and e[2][0] == "neg":
-        sign, e = -1, ("op", "*", e[2][1], e[3])
-    elif e[0] == "op" and e[1] == "*" and e[3][0] == "neg":
-        sign, e = -1, ("op", "*", e[2], e[3][1])
-    elif e[0] == "op" and e[1] == "*" and e[2][0] == "num" and e[2][1] < 0:
-        sign, e = -1, ("op", "*", ("num", -e[2][1]), e[3])
-    return sign, re.sub(r"\s", "", A.show(e))
-
-
-def events(node, out):
-    """ordered perturbation / evaluation events of a statement subtree (loops are entered once; their bodies are
-    returned as nested lists so that the stack discipline can be checked per iteration)"""
-    k = node.get("kind") or ""
-    if k.endswith("Type") or k in ("StaticAssertDecl", "TypeAliasDecl"):
-        return     # unevaluated operands (decltype, concepts)
-    if k in ("ForStmt", "CXXForRangeStmt", "WhileStmt"):
-        body = A.kids(node)[-1]
-        inner = []
-        events(body, inner)
-        out.append(("loop", inner, node))
-        return
-    if k == "LambdaExpr":
-        b = A.lambda_body(node)
-        if b is not None:
-            events(b, out)
-        return
-    if k in ("BinaryOperator", "CXXOperatorCallExpr"):
-        e = A.to_expr(node)
-        if e[0] == "op" and e[1] == "=" and e[2][0] == "ref" and e[3][0] == "call" and str(e[3][1]).split("::")[-1].split("<")[0] == "rplus" \
-                and len(e[3][2]) == 2 and e[3][2][0] == ("ref", e[2][1], e[3][2][0][2] if len(e[3][2][0]) > 2 else None):
-            sign, mag = norm_step(e[3][2][1])
-            out.append(("perturb", e[2][1], sign, mag, node))
-            return
-    if k == "CallExpr":
-        cn = (A.callee_name(A.kids(node)[0]) or "").split("::")[-1]
-        if cn == "apply":
-            e = A.to_expr(node)
-            if len(e[2]) == 2 and e[2][0][0] == "ref" and e[2][0][1] == "f":
-                out.append(("eval", A.show(e[2][1]), node))
-    ks = A.kids(node)
-    if k == "LambdaExpr":
-        ks = [c for c in ks if c.get("kind") != "CXXRecordDecl"]
-    for c in ks:
-        events(c, out)
-
-
-def check_stack(rep, evs, stack, qn, problems, stats, in_loop):
-    for ev in evs:
-        if ev[0] == "loop":
-            before = list(stack)
-            check_stack(rep, ev[1], stack, qn, problems, stats, True)
-            if stack != before:
-                f, l = A.loc(ev[2])
-                problems.append((ev[2], "one iteration of this loop leaves argument(s) %s perturbed (pending steps %s): the argument does not "
-                                 "return to its original value" % (sorted({s[0] for s in stack[len(before):]}), [s[1] for s in stack[len(before):]])))
-                del stack[len(before):]
-        elif ev[0] == "perturb":
-            _, var, sign, mag, node = ev
-            stats["perturb"] += 1
-            if sign > 0:
-                stack.append((var, mag, node))
-            else:
-                if not stack:
-                    problems.append((node, "restore step -%s on %s without a pending perturbation" % (mag, var)))
-                else:
-                    tv, tm, tn = stack[-1]
-                    if tv != var:
-                        problems.append((node, "restores %s while the most recent pending perturbation is on %s (perturb/restore pairs must nest; "
-                                         "on groups with non-zero brackets the point is otherwise not recovered)" % (var, tv)))
-                        # pop the matching one if present to continue
-                        for i in range(len(stack) - 1, -1, -1):
-                            if stack[i][0] == var:
-                                del stack[i]
-                                break
-                    elif tm != mag:
-                        problems.append((node, "restore step `-%s` differs from the pending perturbation `+%s` on %s" % (mag, tm, var)))
-                        stack.pop()
-                    else:
-                        stack.pop()
-                        stats["pairs"] += 1
-        elif ev[0] == "eval":
-            stats["evals"] += 1
-            if in_loop and not stack:
-                problems.append((ev[2], "f is evaluated inside the differencing loop with no pending perturbation"))
-            if not in_loop and stack:
-                problems.append((ev[2], "base value evaluated while a perturbation is pending"))
-
-
-def check_p1(rep, idx):
-    rep.rule("P1", "dr_numerical: perturb/restore steps are properly nested (E, -E) pairs; every loop iteration restores its arguments", minimum=1)
-    fns = [x for x in idx if x.kind in A.FUNCS and x.pattern and x.qname.endswith("dr_numerical") and A.body(x.node) is not None]
-    if len(fns) != 1:
-        rep.broke("dr_numerical: %d definitions found" % len(fns))
-        return
-    fn = fns[0]
-    evs = []
-    events(A.body(fn.node), evs)
-    problems = []
-    stats = {"perturb": 0, "pairs": 0, "evals": 0}
-    stack = []
-    check_stack(rep, evs, stack, "diff::detail::dr_numerical", problems, stats, False)
-    if stack:
-        problems.append((stack[-1][2], "perturbation on %s is never restored" % stack[-1][0]))
-    if not problems and (stats["perturb"] < 8 or stats["pairs"] < 4):
-        rep.broke("P1: only %d perturbation assignments / %d pairs recognised in dr_numerical (8 / 4 confirmed by hand)" % (stats["perturb"], stats["pairs"]))
-    rep.instance("P1", "diff::detail::dr_numerical", "pairing", ok=not problems, sample={"file": fe.rel(fn.file), "line": fn.line, **stats})
-    for node, msg in problems:
-        f, l = A.loc(node)
-        rep.violation(Finding("P1", "diff::detail::dr_numerical", "pairing@%s" % A.text(node)[:30], msg, f, l))
-    # arguments are perturbed on a private copy when they came in const
-    copy_name = None
-    for x in A.walk(A.body(fn.node)):
-        if x.get("kind") == "VarDecl" and A.kids(x):
-            e = A.to_expr(A.kids(x)[-1])
-            if e[0] == "call" and str(e[1]).split("::")[-1] == "wrt_copy_if_const":
-                copy_name = x.get("name")
-    ok = copy_name is not None
-    uses_x = [e for e in _flat(evs) if e[0] == "eval" and e[1] != copy_name]
-    perturbed_elsewhere = []
-    for x in A.walk(A.body(fn.node)):
-        if x.get("kind") == "VarDecl" and x.get("type", {}).get("qualType", "").endswith("&") and A.kids(x):
-            e = A.to_expr(A.kids(x)[-1])
-            if e[0] == "call" and str(e[1]).split("::")[-1].startswith("get") and e[2] and not (e[2][0][0] == "ref" and e[2][0][1] == copy_name):
-                perturbed_elsewhere.append(x)
-    rep.rule("P1b", "dr_numerical works on wrt_copy_if_const(x) and evaluates f only on that copy", minimum=1)
-    rep.instance("P1b", "diff::detail::dr_numerical", "copy", ok=ok and not uses_x and not perturbed_elsewhere, sample={"evaluations": stats["evals"], "copy": copy_name})
-    if not ok:
-        rep.violation(Finding("P1b", "diff::detail::dr_numerical", "copy", "finite differences are not taken on a private copy made by wrt_copy_if_const(x)", fn.file, fn.line))
-    elif uses_x:
-        f, l = A.loc(uses_x[0][2])
-        rep.violation(Finding("P1b", "diff::detail::dr_numerical", "copy", "f is evaluated on `%s` instead of the perturbed copy %s" % (uses_x[0][1], copy_name), f, l))
-    elif perturbed_elsewhere:
-        f, l = A.loc(perturbed_elsewhere[0])
-        rep.violation(Finding("P1b", "diff::detail::dr_numerical", "copy", "a perturbed reference is bound to an element of something other than the private copy %s: %s"
-                              % (copy_name, A.text(perturbed_elsewhere[0])[:60]), f, l))
-    for e in _flat(evs):
-        if e[0] == "eval" and e[1] == "x_nc" and copy_name != "x_nc":
-            pass
-
-
-def _flat(evs):
-    for e in evs:
-        if e[0] == "loop":
-            yield from _flat(e[1])
-        else:
-            yield e
-
-
 def check_p2(rep):
     rep.rule("P2", "wrt_copy_if_const copies exactly the arguments that came in as const references", minimum=12)
     kinds = [("smooth::SO3d", "so3"), ("Eigen::Vector3d", "v3"), ("double", "dbl"), ("std::vector<smooth::SE2d>", "vec"),
@@ -191,235 +35,6 @@ def check_p2(rep):
         rep.instance("P2", w.group, w.id, ok=not bad, sample={"obligation": w.what})
         if bad:
             rep.violation(Finding("P2", w.group, w.id, "%s -- %s" % (failed[w.id][0][-150:], w.what), "include/smooth/detail/wrt_impl.hpp", None))
-
-
-def constexpr_chain(stmt):
-    """[(condition expr or None, branch node)] of an if-constexpr / else-if chain"""
-    out = []
-    cur = stmt
-    while cur is not None and cur.get("kind") == "IfStmt":
-        ks = A.kids(cur)
-        out.append((A.to_expr(ks[0]), ks[1]))
-        cur = ks[2] if len(ks) > 2 else None
-    if cur is not None:
-        out.append((None, cur))
-    return out
-
-
-def check_p3(rep, idx):
-    rep.rule("P3", "dr<K,Analytic> returns f(x), f.jacobian(x...)[, f.hessian(x...)] untouched; K=0 only the value; Default prefers Analytic", minimum=4)
-    fns = [x for x in idx if x.kind in A.FUNCS and x.pattern and x.qname.split("::")[-1] == "dr" and A.body(x.node) is not None and len(A.params(x.node)) == 2
-           and any(s.get("kind") == "IfStmt" for s in A.kids(A.body(x.node)))]
-    if len(fns) != 1:
-        rep.broke("diff::dr<K,D>(f, x): expected one definition with the dispatch chain, found %d" % len(fns))
-        return
-    fn = fns[0]
-    top = [s for s in A.kids(A.body(fn.node)) if s.get("kind") == "IfStmt"][0]
-    chain = constexpr_chain(top)
-
-    def cond_is(c, lhs, rhs_suffix):
-        return c is not None and c[0] == "op" and c[1] == "==" and c[2][0] == "ref" and c[2][1] == lhs and re.sub(r"\s", "", A.show(c[3])).split("::")[-1] == rhs_suffix
-
-    def ret_items(node):
-        rets = [x for x in A.walk_nolambda(node) if x.get("kind") == "ReturnStmt"]
-        if len(rets) != 1:
-            return None, None
-        e = A.to_expr(A.kids(rets[0])[0])
-        if e[0] == "call" and str(e[1]).split("::")[-1] == "make_tuple":
-            return e[2], rets[0]
-        return None, rets[0]
-
-    def is_value(e):
-        return e[0] == "call" and str(e[1]).split("::")[-1] == "apply" and len(e[2]) == 2 and e[2][0][0] == "ref" and e[2][0][1] == "f" and e[2][1][0] == "ref" and e[2][1][1] == "x"
-
-    def is_member_passthrough(e, member):
-        if not (e[0] == "call" and str(e[1]).split("::")[-1] == "apply" and len(e[2]) == 2 and e[2][0][0] == "lambda" and e[2][1][0] == "ref" and e[2][1][1] == "x"):
-            return False
-        lb = A.lambda_body(e[2][0][1])
-        rets = [x for x in A.walk(lb) if x.get("kind") == "ReturnStmt"]
-        if len(rets) != 1 or len(A.kids(lb)) != 1:
-            return False
-        r = A.to_expr(A.kids(rets[0])[0])
-        return r[0] == "mcall" and r[2] == member and r[1][0] == "ref" and r[1][1] == "f" and len(r[4]) == 1 and "forward" in A.show(r[4][0])
-
-    found = {"K0": None, "A1": None, "A2": None, "Default": None}
-    for c, br in chain:
-        if c is not None and c[0] == "op" and c[1] == "==" and c[2][0] == "ref" and c[2][1] == "K" and c[3][0] == "num" and c[3][1] == 0:
-            items, node = ret_items(br)
-            found["K0"] = (items is not None and len(items) == 1 and is_value(items[0]), node or br)
-        elif cond_is(c, "D", "Analytic"):
-            inner = [s for s in A.kids(br) if s.get("kind") == "IfStmt"]
-            for c2, br2 in (constexpr_chain(inner[0]) if inner else []):
-                if c2 is not None and c2[0] == "op" and c2[1] == "==" and c2[2][0] == "ref" and c2[2][1] == "K" and c2[3][0] == "num":
-                    items, node = ret_items(br2)
-                    if c2[3][1] == 1:
-                        found["A1"] = (items is not None and len(items) == 2 and is_value(items[0]) and is_member_passthrough(items[1], "jacobian"), node or br2)
-                    elif c2[3][1] == 2:
-                        found["A2"] = (items is not None and len(items) == 3 and is_value(items[0]) and is_member_passthrough(items[1], "jacobian")
-                                       and is_member_passthrough(items[2], "hessian"), node or br2)
-        elif cond_is(c, "D", "Default"):
-            inner = [s for s in A.kids(br) if s.get("kind") == "IfStmt"]
-            ok = False
-            if inner:
-                ch = constexpr_chain(inner[0])
-                oks = []
-                for c2, br2 in ch[:2]:
-                    t = re.sub(r"\s", "", A.show(c2)) if c2 is not None else ""
-                    rets = [x for x in A.walk_nolambda(br2) if x.get("kind") == "ReturnStmt"]
-                    rt = A.ntext(rets[0]) if rets else ""
-                    oks.append(("diffable_order" in A.ntext(A.kids(inner[0])[0]) or "diffable_order" in t or True) and "dr<K,Type::Analytic>(std::forward<F>(f),std::forward<Wrt>(x))" in rt)
-                conds = A.ntext(A.kids(inner[0])[0])
-                ok = len(oks) == 2 and all(oks) and "K==1&&detail::diffable_order1<F,Wrt>" in conds
-            found["Default"] = (ok, inner[0] if inner else br)
-    names = {"K0": "K == 0 returns only std::make_tuple(f(x...))", "A1": "Analytic K == 1 returns {f(x...), f.jacobian(x...)} verbatim",
-             "A2": "Analytic K == 2 returns {f(x...), f.jacobian(x...), f.hessian(x...)} verbatim",
-             "Default": "Default dispatches to Analytic exactly when the callable provides jacobian (and hessian for K == 2)"}
-    for k, v in found.items():
-        if v is None:
-            rep.broke("P3: branch for %s not found in diff::dr dispatch chain" % k)
-            continue
-        ok, node = v
-        f, l = A.loc(node)
-        rep.instance("P3", "diff::dr", k, ok=ok, sample={"file": fe.rel(f), "line": l, "obligation": names[k]})
-        if not ok:
-            rep.violation(Finding("P3", "diff::dr", k, "violated: " + names[k], f, l))
-
-
-def check_p4(rep, idx, rule_id="P4", first_order_only=False):
-    """P4: the finite-difference step of an R^n coordinate never collapses: executing the step computation of dr_numerical for
-    |w_j| in {0, 1e-20, 1e-12, 1e-6, 1e-3, 1/2, 1, 40} must give a step of at least 1e-5 * base (base = the unscaled step sqrt(eps): a quotient of O(1) values is then accurate to about 1e-3).  A purely
-    relative step eps*|w_j| with a fallback only at exactly 0 falls below the rounding unit of O(1) function values for tiny
-    non-zero coordinates: the difference quotient is then exactly 0."""
-    from fractions import Fraction
-    rep.rule(rule_id, "dr_numerical: the step of a vector coordinate is bounded below (>= 1e-5 * base) for every coordinate value", minimum=1)
-    fns = [d for d in idx if d.kind in A.FUNCS and d.pattern and d.qname.split("::")[-1] == "dr_numerical" and A.body(d.node) is not None]
-    if len(fns) != 1:
-        rep.broke(rule_id + ": dr_numerical not found")
-        return
-    d = fns[0]
-    sites = []
-    for x in A.walk(A.body(d.node)):
-        if x.get("kind") == "CompoundStmt":
-            ks = A.kids(x)
-            for i, st in enumerate(ks):
-                if st.get("kind") == "DeclStmt":
-                    vs = [v for v in A.kids(st) if v.get("kind") == "VarDecl" and A.kids(v)]
-                    if len(vs) == 1 and i + 1 < len(ks) and ks[i + 1].get("kind") == "IfStmt" and "MatrixBase" in A.ntext(A.kids(ks[i + 1])[0]):
-                        init = A.to_expr(A.kids(vs[0])[-1])
-                        if init[0] == "ref":
-                            sites.append((vs[0].get("name"), init[1], ks[i + 1], st))
-    if len(sites) < 3:
-        rep.broke(rule_id + ": found %d step computations in dr_numerical, 3 confirmed by hand (first-order loop, two Hessian loops)" % len(sites))
-        return
-    if first_order_only:
-        # the Jacobian of minimize<Numerical> comes from the K == 1 loop: the step whose quotient is stored in J only (no Hessian entry nearby)
-        par = {}
-        for p_ in A.walk(A.body(d.node)):
-            for c_ in A.kids(p_):
-                par[id(c_)] = p_
-        keep = []
-        for site in sites:
-            blk = par.get(id(site[3]))
-            if blk is not None and "H(" not in A.ntext(blk):
-                keep.append(site)
-        sites = keep
-        if len(sites) != 1:
-            rep.broke(rule_id + ": expected one first-order step computation, found %d" % len(sites))
-            return
-    for site_no, (var, base, ifs, decl) in enumerate(sites):
-        site_name = "first-order step" if first_order_only else "step computation %d" % (site_no + 1)
-        body = A.kids(ifs)[1]
-        coord = None
-        for y in A.walk(body):
-            if y.get("kind") in ("CallExpr",) and A.ntext(y).split("(")[0].split("::")[-1] in ("abs", "fabs"):
-                coord = A.show(A.to_expr(y))
-        f, l = A.loc(decl)
-        if coord is None:
-            rep.broke(rule_id + ": step computation at %s:%s does not scale by |coordinate|; re-confirm the rule" % (fe.rel(f), l))
-            continue
-        bad = None
-
-        class Stop(Exception):
-            pass
-
-        def ev(e, env, wv):
-            t = e[0]
-            if t == "num":
-                return Fraction(e[1])
-            if t == "ref":
-                if e[1] in env:
-                    return env[e[1]]
-                raise Stop("name %s" % e[1])
-            if t == "ctor" and len(e[2]) == 1:
-                return ev(e[2][0], env, wv)
-            if t == "neg":
-                return -ev(e[1], env, wv)
-            if t == "call":
-                nm = str(e[1]).split("::")[-1].split("<")[0]
-                if nm in ("abs", "fabs"):
-                    return abs(wv)
-                if nm in ("max", "min"):
-                    vals = [ev(a, env, wv) for a in e[2]]
-                    return max(vals) if nm == "max" else min(vals)
-                if nm in ("Scalar", "static_cast", "double", "float") and len(e[2]) == 1:
-                    return ev(e[2][0], env, wv)
-                raise Stop("call %s" % nm)
-            if t == "cond":
-                return ev(e[2], env, wv) if ev(e[1], env, wv) else ev(e[3], env, wv)
-            if t == "op":
-                op = e[1]
-                if op in ("=", "*=", "+=", "/="):
-                    v = ev(e[3], env, wv)
-                    if e[2][0] != "ref":
-                        raise Stop("assignment target")
-                    cur = env.get(e[2][1], Fraction(0))
-                    env[e[2][1]] = v if op == "=" else (cur * v if op == "*=" else (cur + v if op == "+=" else cur / v))
-                    return env[e[2][1]]
-                a, b = ev(e[2], env, wv), ev(e[3], env, wv)
-                if op == "/":
-                    return a / b
-                return {"+": lambda: a + b, "-": lambda: a - b, "*": lambda: a * b, "==": lambda: Fraction(int(a == b)), "!=": lambda: Fraction(int(a != b)),
-                        "<": lambda: Fraction(int(a < b)), "<=": lambda: Fraction(int(a <= b)), ">": lambda: Fraction(int(a > b)), ">=": lambda: Fraction(int(a >= b)),
-                        "&&": lambda: Fraction(int(bool(a) and bool(b))), "||": lambda: Fraction(int(bool(a) or bool(b)))}[op]()
-            raise Stop("expression %s" % A.show(e)[:40])
-
-        def ex(st, env, wv):
-            k = st.get("kind")
-            if k == "CompoundStmt":
-                for c in A.kids(st):
-                    ex(c, env, wv)
-            elif k == "IfStmt":
-                ks_ = A.kids(st)
-                if ev(A.to_expr(ks_[0]), env, wv):
-                    ex(ks_[1], env, wv)
-                elif len(ks_) > 2:
-                    ex(ks_[2], env, wv)
-            elif k in ("BinaryOperator", "CompoundAssignOperator", "CXXOperatorCallExpr", "ExprWithCleanups"):
-                ev(A.to_expr(st), env, wv)
-            elif k == "DeclStmt":
-                for v in A.kids(st):
-                    if v.get("kind") == "VarDecl" and A.kids(v):
-                        env[v.get("name")] = ev(A.to_expr(A.kids(v)[-1]), env, wv)
-            elif k == "NullStmt":
-                pass
-            else:
-                raise Stop("statement kind %s" % k)
-        try:
-            for wv in (Fraction(0), Fraction(1, 10 ** 20), Fraction(1, 10 ** 12), Fraction(1, 10 ** 6), Fraction(1, 1000), Fraction(1, 2), Fraction(1), Fraction(40)):
-                env = {base: Fraction(1), var: Fraction(1)}
-                ex(body, env, wv)
-                step = env[var]
-                if step < Fraction(1, 10 ** 5) and bad is None:
-                    bad = (wv, step)
-        except Stop as ex_:
-            rep.broke(rule_id + ": cannot execute the step computation at %s:%s: %s" % (fe.rel(f), l, ex_))
-            continue
-        rep.instance(rule_id, "dr_numerical", site_name, ok=bad is None, sample={"file": fe.rel(f), "line": l, "variable": var})
-        if bad:
-            rep.violation(Finding(rule_id, "dr_numerical", site_name,
-                                  "for a vector coordinate of magnitude %s the finite-difference step is %s * %s: below the rounding unit of O(1) function "
-                                  "values, so the difference quotient is exactly 0 (only a coordinate that is exactly 0 falls back to the default step)"
-                                  % (float(bad[0]), float(bad[1]), base), f, l))
 
 
 def check_p5(rep):
@@ -455,10 +70,9 @@ def check_p5(rep):
             rep.violation(Finding("P5", w.group, w.id, "%s -- %s" % (failed[w.id][0][-160:], w.what), "include/smooth/detail/diff_impl.hpp", None))
 
 
-def check_p6_p7(rep, idx):
+def check_p6(rep, idx):
     from fractions import Fraction
     rep.rule("P6", "the index-subset wrapper copies the reduced arguments into the full argument tuple (never moves from them)", minimum=1)
-    rep.rule("P7", "dr_numerical<2> stores d2(j) at H(I0 + k0, j*nx + I1 + k1): output blocks of width nx, stacked horizontally", minimum=1)
     # P6
     subs = [d for d in idx if d.kind in A.FUNCS and d.pattern and d.qname.split("::")[-1] == "dr" and A.body(d.node) is not None and len(A.params(d.node)) == 3]
     subs = [d for d in subs if any(x.get("kind") == "LambdaExpr" for x in A.walk(A.body(d.node)))]
@@ -479,51 +93,21 @@ def check_p6_p7(rep, idx):
                 rep.violation(Finding("P6", "dr(f, x, index_sequence)", "fold",
                                       "the wrapper moves from its reduced arguments (`%s`): they are dr_numerical's working copies (or the caller's own objects) and are "
                                       "read again for the next perturbation, so heap-backed arguments lose their value after the first evaluation" % txt[0][:80], f, l))
-    # P7
-    nums = [d for d in idx if d.kind in A.FUNCS and d.pattern and d.qname.split("::")[-1] == "dr_numerical" and A.body(d.node) is not None]
-    if len(nums) != 1:
-        rep.broke("P7: dr_numerical not found")
-        return
-    d = nums[0]
-    found = 0
-    for x in A.walk(A.body(d.node)):
-        if x.get("kind") in ("BinaryOperator", "CXXOperatorCallExpr"):
-            e = A.to_expr(x)
-            if e[0] == "op" and e[1] == "=" and e[2][0] == "call" and e[2][1] == "H" and len(e[2][2]) == 2:
-                found += 1
-                r_, c_ = e[2][2]
-                f, l = A.loc(x)
-                bad = None
-                try:
-                    for env in ({"I0": 2, "k0": 1, "j": 3, "nx": 7, "I1": 4, "k1": 2, "ny": 5, "nx_i0": 2, "nx_i1": 3},
-                                {"I0": 0, "k0": 0, "j": 1, "nx": 5, "I1": 2, "k1": 1, "ny": 2, "nx_i0": 2, "nx_i1": 3},
-                                {"I0": 3, "k0": 2, "j": 0, "nx": 9, "I1": 0, "k1": 0, "ny": 4, "nx_i0": 3, "nx_i1": 6}):
-                        if pe.ev(r_, env) != env["I0"] + env["k0"] or pe.ev(c_, env) != env["j"] * env["nx"] + env["I1"] + env["k1"]:
-                            bad = env
-                            break
-                except pe.PEError as ex:
-                    rep.broke("P7: cannot evaluate the Hessian index `%s`: %s" % (A.show(e[2])[:50], ex))
-                    continue
-                rep.instance("P7", "dr_numerical", "H index @%s" % l, ok=bad is None, sample={"file": fe.rel(f), "line": l, "index": A.show(e[2])[:60]})
-                if bad:
-                    rep.violation(Finding("P7", "dr_numerical", "H index",
-                                          "the second difference of output j w.r.t. coordinates (I0+k0, I1+k1) is stored at `%s`; the documented layout is row I0 + k0, column "
-                                          "j*nx + I1 + k1 (one nx-wide block per output, stacked horizontally) -- they differ e.g. for %s" % (A.show(e[2])[:60], bad), f, l))
-    if found == 0:
-        rep.broke("P7: no assignment to H(row, col) found in dr_numerical")
 
 
 def check(rep, tier, replay=None):
     rep.explanations.append(
-        "C08: P1 stack discipline of perturb/restore steps in dr_numerical (properly nested (E,-E) pairs with identical step "
-        "expressions; every loop iteration returns its arguments), P2 type-level witnesses that const arguments are copied and "
-        "mutable ones kept by reference, P3 pass-through of the callable's own jacobian/hessian in Analytic/Default mode.")
-    rep.trusted.update(["clang++-16 front end", "g++ 12 front end (type identities)"])
-    rep.assumptions.append("accuracy of finite differences, Hessian layout for multi-argument functions and index-subset column correspondence are not decided")
-    d = fe.ast_dumps(["diff::dr", "dr_numerical"])
+        "C08: detail::dr_numerical<1|2> and the dispatcher diff::dr<K, D> are abstractly executed (engine M, props/diffm.py) on abstract argument tuples -- Eigen "
+        "vectors with concrete rational coordinates, free-group elements, an uninterpreted callable -- and the effects are compared with the contract: arguments "
+        "restored (LIFO on non-commutative groups), Jacobian columns and Hessian entries built from the documented evaluations with the documented steps and "
+        "layout, pass-through of the callable's own derivatives.  P2 / P5 are type-level witnesses (which arguments are copied, which callables count as "
+        "providing derivatives); P6 inspects the index-subset wrapper.")
+    rep.trusted.update(["clang++-16 front end", "g++ 12 front end (type identities)", "lib/mach.py (abstract machine)"])
+    rep.assumptions.append("accuracy of finite differences is numerical and not decided; bounded abstract execution (1-3 arguments, vector sizes 1-4, result dof 2)")
+    d = fe.ast_dumps(["diff::dr"])
     rep.unit("umbrella TU filtered diff::dr / dr_numerical; 1 batched static_assert TU")
-    check_p1(rep, A.index(d["dr_numerical"]))
+    import diffm
+    diffm.check(rep, tier)
     check_p2(rep)
-    check_p3(rep, A.index(d["diff::dr"]))
     check_p5(rep)
-    check_p6_p7(rep, A.index(d["diff::dr"]) + A.index(d["dr_numerical"]))
+    check_p6(rep, A.index(d["diff::dr"]))
